@@ -35,6 +35,9 @@ def run(res):
     # instance runs, a left world is frozen, a cleared handle yields a fresh instance whose coroutine starts over
     gm.check_and_replay(res, 'c13_game', gm.consts(MaxFrames=4 if th else 3, Incs={0, 1, 2} if th else {1, 2}),
                         own={'cur', 'cached', 'runs', 'iterations', 'exc'}, walks=2000 if th else 300)
+    if th:
+        gm.check_and_replay(res, 'c13_game_3', gm.consts(Hs={'A', 'B', 'C'}, Wait={'A': 3, 'B': 2, 'C': 1}, MaxFrames=3, Incs={1, 2}),
+                            own={'cur', 'cached', 'runs', 'iterations', 'exc'}, walks=0)
     n = sum(c.get('known_D16', 0) for c in res.cov.get('replay', {}).values())
     if n:
         listed = [f for f in common.load_findings().get('findings', []) if f.get('property') == 'C13' and f.get('id') == 'D16']
